@@ -1,2 +1,130 @@
-(* C18 - placeholder while the correspondence is being validated. *)
+(* C18 - routing picks exactly one destination; route prefixes push and pop inversely.
+   Only statements; every proof is `exact <lemma of Proof/C18.v>`. *)
 From TT Require Import Lib.Base Model.Router Spec.C18 Corr.C18 Proof.C18.
+
+(* The model meets the whole statement for every router configuration and every history of
+   add_rule / startTestRun / stopTestRun / status calls (any order, any number of rules, duplicate
+   keys and shared sinks included); wf only asks that the sinks exist and that no route code is
+   the empty string. *)
+Theorem C18_holds : forall i : input, wf i -> spec_okb i (model i) = true.
+Proof. exact model_meets_spec. Qed.
+Print Assumptions C18_holds.
+
+(* ... and the executable statement implies the readable one (Spec.C18.Spec). *)
+Theorem C18_statement : forall i o, spec_okb i o = true -> Spec i o.
+Proof. exact spec_okb_sound. Qed.
+Print Assumptions C18_statement.
+
+(* Exactly one sink per status call, named by the history: with one rule per key, the k-th call
+   status(e) (through StreamToQueue objects with codes via) reaches the sink of the add_rule made
+   before it for the first segment of the route code, otherwise the one for its test id,
+   otherwise the fallback, otherwise the call raises and nobody receives anything; the event is
+   unchanged except that a consuming rule removes exactly the first segment. *)
+Theorem C18_one_sink : forall i, wf i -> wf_distinct i -> forall k via e so,
+  nth_error (ops i) k = Some (Status via e) -> nth_error (o_steps (model i)) k = Some so ->
+  let past := firstn k (ops i) in
+  let e0 := pushed via e in
+  let n := n_sinks i in
+  let no_prefix_rule := forall s p c ss, In (AddPrefix s p c ss) past -> first_seg (e_route e0) <> Some p in
+  let no_id_rule := forall s ss, ~ In (AddId s (e_id e0) ss) past in
+  (forall s p c ss, In (AddPrefix s p c ss) past -> first_seg (e_route e0) = Some p ->
+     s_raised so = false
+     /\ New_is n (only s (St (if c then set_route e0 (strip_first (e_route e0)) else e0))) (s_new so))
+  /\ (no_prefix_rule -> forall s ss, In (AddId s (e_id e0) ss) past ->
+     s_raised so = false /\ New_is n (only s (St e0)) (s_new so))
+  /\ (no_prefix_rule -> no_id_rule -> forall f, fb i = Some f ->
+     s_raised so = false /\ New_is n (only f (St e0)) (s_new so))
+  /\ (no_prefix_rule -> no_id_rule -> fb i = None ->
+     s_raised so = true /\ New_is n nobody (s_new so)).
+Proof. exact one_sink. Qed.
+Print Assumptions C18_one_sink.
+
+(* push/pop: the consuming slice is the inverse of StreamToQueue.route_code, for None and for any
+   number of segments; nested through any chain of StreamToQueue objects and consuming routers;
+   and through the model's router itself. *)
+Theorem C18_push_pop : forall c r, route_wf r = true ->
+  first_seg (route_code c r) = Some c /\ strip_first (route_code c r) = r.
+Proof. exact push_pop. Qed.
+Print Assumptions C18_push_pop.
+
+Theorem C18_push_pop_nested : forall via e, route_wf (e_route e) = true -> roundtrip via e = e.
+Proof. exact roundtrip_id. Qed.
+Print Assumptions C18_push_pop_nested.
+
+Theorem C18_push_pop_router : forall r c s e,
+  get Nat.eqb c (r_prefixes r) = Some (s, true) -> route_wf (e_route e) = true ->
+  route_status r (pushed [c] e) = Some (s, e).
+Proof. exact router_pops. Qed.
+Print Assumptions C18_push_pop_router.
+
+(* the same three operations on '/'-joined strings of character codes, for every naming of the
+   segments by non-empty '/'-free strings: split("/")[0], routing_code + "/" + route_code and the
+   slice [len(prefix)+1:] commute with rendering *)
+Theorem C18_strings : forall name : seg -> str,
+  (forall s, name s <> []) -> (forall s, ~ In slash (name s)) ->
+  forall r, route_wf r = true ->
+    option_map str_head (render name r) = option_map name (first_seg r)
+    /\ (forall c, str_route_code (name c) (render name r) = render name (route_code c r))
+    /\ str_consume (render name r) = render name (strip_first r)
+    /\ (forall c, str_consume (str_route_code (name c) (render name r)) = render name r).
+Proof.
+  exact (fun name H1 H2 r H =>
+           conj (str_first_seg name H2 r H)
+             (conj (fun c => str_push name c r H)
+                (conj (str_pop name H1 H2 r H) (fun c => str_push_pop name H1 H2 c r H)))).
+Qed.
+Print Assumptions C18_strings.
+
+(* startTestRun / stopTestRun: for every history (whatever the order of add_rule, startTestRun and
+   stopTestRun), the start/stop calls sink s receives at call k are: one startTestRun (stopTestRun)
+   when the call is startTestRun (stopTestRun) and s was registered for them before k - as the
+   fallback with do_start_stop_run, or by an earlier add_rule(.., do_start_stop_run=True) -; one
+   startTestRun when the call is the add_rule that registers s and a run is in progress; nothing
+   in every other case.  wf_distinct: the sinks of different rules are distinct objects. *)
+Theorem C18_start_stop : forall i, wf i -> wf_distinct i -> forall k o so s,
+  nth_error (ops i) k = Some o -> nth_error (o_steps (model i)) k = Some so -> s < n_sinks i ->
+  let past := firstn k (ops i) in
+  filter is_start_stop (nth s (s_new so) []) =
+    match o with
+    | Start => if memb s (registered i past) then [StartRun] else []
+    | Stop => if memb s (registered i past) then [StopRun] else []
+    | AddPrefix s' _ _ ss | AddId s' _ ss => if Nat.eqb s' s && ss && in_run past then [StartRun] else []
+    | Status _ _ => []
+    end.
+Proof. exact start_stop. Qed.
+Print Assumptions C18_start_stop.
+
+(* a registration lasts: registered at the call after the add_rule, and from then on *)
+Theorem C18_registered : forall i j k s o,
+  (nth_error (ops i) k = Some o -> In s (registration o) -> memb s (registered i (firstn (S k) (ops i))) = true)
+  /\ (j <= k -> memb s (registered i (firstn j (ops i))) = true -> memb s (registered i (firstn k (ops i))) = true).
+Proof. exact (fun i j k s o => conj (registered_at i k s o) (registered_mono i j k s)). Qed.
+Print Assumptions C18_registered.
+
+(* the correspondence compares observations exactly *)
+Theorem C18_obs_eqb : forall a b, obs_eqb a b = true <-> a = b.
+Proof. exact obs_eqb_spec. Qed.
+Print Assumptions C18_obs_eqb.
+
+(* non-vacuity: a fallback registered for start/stop, a consuming prefix rule added during a run
+   with do_start_stop_run, a test-id rule without; an event pushed through StreamToQueue(2) and
+   StreamToQueue(0) pops back; the string-level hypotheses are satisfiable *)
+Example C18_example :
+  let e := Ev (Some 1) (Some 4) None true None None false None (Some [3; 4]) None in
+  let i := {| n_sinks := 3; fb := Some 0; fb_ss := true;
+              ops := [Start; AddPrefix 1 0 true true; AddId 2 (Some 1) false;
+                      Status [2; 0] e; Status [] e; Stop] |} in
+  wf i /\ wf_distinct i
+  /\ o_steps (model i)
+     = [ {| s_raised := false; s_new := [[StartRun]; []; []] |};
+         {| s_raised := false; s_new := [[]; [StartRun]; []] |};
+         {| s_raised := false; s_new := [[]; []; []] |};
+         {| s_raised := false; s_new := [[]; [St (set_route e (Some [2; 3; 4]))]; []] |};
+         {| s_raised := false; s_new := [[]; []; [St e]] |};
+         {| s_raised := false; s_new := [[StopRun]; [StopRun]; []] |} ]
+  /\ o_round (model i) = [Some [3; 4]; Some [3; 4]]
+  /\ (forall s, (fun s => [48 + s]) s <> []) /\ (forall s, ~ In slash ((fun s => [48 + s]) s)).
+Proof.
+  repeat split; try (vm_compute; reflexivity); try discriminate.
+  intros s [H|[]]. unfold slash in H. lia.
+Qed.
